@@ -188,7 +188,11 @@ class Parser:
 
     # ---------------------------------------------------------- expressions
     def expr(self, nostruct=False):
-        return self.binary(0, nostruct)
+        e = self.binary(0, nostruct)
+        if self.at("..="):                  # inclusive range `a..=b` (the exclusive `..` stays with the slice syntax)
+            self.i += 1
+            return ("range", e, self.binary(0, nostruct), True)
+        return e
 
     def binary(self, lvl, nostruct):
         if lvl == len(BINPREC):
